@@ -71,10 +71,13 @@ def build(case, collect, max_errors=None):
         ann, ns = {}, {}
         for f in fields:
             ann[f["name"]] = T(f["type"])
+            extra_kw = {"alias_from": list(f["alias_from"])} if f.get("alias_from") else {}
             if f.get("default"):
-                ns[f["name"]] = utype.Field(default=None) if f["default"] == "none" else utype.Field(default=7)
+                ns[f["name"]] = utype.Field(default=None, **extra_kw) if f["default"] == "none" else utype.Field(default=7, **extra_kw)
             elif not f.get("required", True):
-                ns[f["name"]] = utype.Field(required=False)
+                ns[f["name"]] = utype.Field(required=False, **extra_kw)
+            elif extra_kw:
+                ns[f["name"]] = utype.Field(**extra_kw)
         ns["__annotations__"] = ann
         ns["__module__"] = "vf.dspec"
         ns["__qualname__"] = "C10D"
@@ -148,6 +151,20 @@ def failing_items(case):
     names = set()
     for f in case["fields"]:
         names.add(f["name"])
+        given = [n for n in [f["name"]] + list(f.get("alias_from") or []) if n in inp]
+        names.update(f.get("alias_from") or [])
+        if len(given) > 1:
+            vals = [codec.decode(inp[n]) for n in given]
+            try:
+                conflict = any(vals[0] != x for x in vals[1:])
+            except Exception:
+                return None, 0
+            if conflict:
+                failing.add(f["name"])      # one AliasConflictError for the field; none of its keys is an unknown key
+                continue
+        if given and given[0] != f["name"]:
+            inp = dict(inp)
+            inp[f["name"]] = inp[given[0]]
         if f["name"] in inp:
             Tt = tspec.build(f["type"], decl_builder=lambda d: reg.setdefault(d["name"], dspec.build_decl(d)))
             r = oracle.reject_raw(oracle.outcome(utype.type_transform, codec.decode(inp[f["name"]]), Tt, conv_opts))
@@ -287,11 +304,19 @@ def cases(draw):
     o.update(extra)
     inp = []
     for f in fields:
-        how = draw(st.sampled_from(["good", "good", "bad", "bad", "missing"]))
+        if kind != "func" and draw(st.integers(0, 3)) == 0:
+            f["alias_from"] = [f["name"] + "_alt"]
+        how = draw(st.sampled_from(["good", "good", "bad", "bad", "missing"] + (["conflict", "conflict", "alias"] if f.get("alias_from") else [])))
         if how == "missing":
             continue
-        v = draw(gen.conforming(f["type"]) if how == "good" else st.one_of(JUNK, JUNK, gen.conforming(f["type"])))
+        v = draw(gen.conforming(f["type"]) if how in ("good", "conflict", "alias") else st.one_of(JUNK, JUNK, gen.conforming(f["type"])))
+        if how == "alias":
+            inp.append([f["alias_from"][0], v])
+            continue
         inp.append([f["name"], v])
+        if how == "conflict":
+            # the same field under a second accepted name with another value: ONE failing item (the field), no unknown key
+            inp.append([f["alias_from"][0], draw(st.sampled_from(["other", -77, {"t": "list", "v": ["zz"]}]))])
     kwvar = None
     if kind == "func" and draw(st.booleans()):
         kwvar = draw(st.sampled_from(["any", TYPES[0], TYPES[2], TYPES[3], TYPES[6]]))
@@ -321,6 +346,8 @@ def campaign(ctx):
         if r["status"] in ("accepted", "rejected"):
             ctx.label(f"failing_items_{min(r['n_failing'], 4)}")
             ctx.label(f"max_errors_{case.get('max_errors')}")
+            if any(f.get("alias_from") and sum(1 for k, _ in case["input"] if k in [f["name"]] + f["alias_from"]) > 1 for f in case["fields"]):
+                ctx.label("field_given_under_two_names")
             if r["n_failing"] >= 2 or (r["n_failing"] == 1 and r["converted"]):
                 ctx.nt(case)
                 ctx.sample(f"{case['kind']}-{r['status']}", case)
